@@ -362,6 +362,9 @@ S('st_restore_packets_v5', {'C16': 'quick'}, stubs=_st, est=600, mem='L',
   bounds='restore_packets([QoS1 PUBLISH(i), QoS2 PUBLISH(j), PUBREL(k)]) (v5.0 packets) into a fresh v5.0 client, ids symbolic', symbolic='i, j, k', encodes=['restore_packets'])
 S('st_send_stored_limit_v5', {'C14': 'quick', 'C06': 'thorough', 'C08': 'thorough'}, stubs=_st, est=600, mem='L',
   bounds='send_stored() with stored [v5.0 QoS1 PUBLISH (9 bytes), PUBREL (4 bytes)] under a peer limit L over all u32 >= 1', symbolic='L, i, k', encodes=['send_stored', 'GenericStore::for_each'])
+for _n, _d in (('pubrel', 'PUBREL (4 bytes)'), ('publish', 'QoS1 PUBLISH (9 bytes)')):
+    S('st_send_stored_limit_v5_' + _n, {}, stubs=(_st if _n == 'publish' else []), est=600, mem='L',
+      bounds='send_stored() with one stored v5.0 %s under a peer limit L over all u32 >= 1, id over all u16 >= 1' % _d, symbolic='L, k', encodes=['send_stored', 'GenericStore::for_each'])
 for _k, _t in (('puback_props127', 'thorough'), ('puback_props128', 'opt'), ('pubrec_props128', 'opt'), ('pubrel_props128', 'opt'), ('pubcomp_props128', 'opt')):
     K('c02_v5_' + _k, {'C02': _t, 'C03': 'thorough'}, est=600, timeout=3600, stubs=_st, mem='XL',
       bounds='v5.0 %s with reason code and one Reason String so that the property section is %s bytes (Property Length field one/two bytes); id, first and last string byte symbolic' % (_k.split('_')[0].upper(), _k[-3:]),
@@ -428,9 +431,9 @@ _MEM = {
     'M': ['st_recv_connect_v5_server', 'st_recv_connect_v311_server', 'st_send_puback_v5_limit', 'st_send_pubrec_v5_handled', 'st_reuse_client_v311_clean_connect',
           'st_send_publish_v5_automap_limit', 'st_recv_publish_q2_v311', 'st_send_publish_v311_q1_persistent',
           'st_restore_one_v311_publish_q1', 'st_restore_one_v311_publish_q2', 'st_restore_one_v311_pubrel', 'st_restore_one_v5_pubrel', 'st_restore_one_v5_publish_q2', 'st_recv_connect_v5_server'],
-    'L': ['st_notify_closed_any', 'st_id_calls_total', 'st_recv_puback_v5_flow', 'st_send_publish_v311_never_dropped', 'st_recv_puback_v311_persistent', 'st_send_publish_v5_flow',
+    'L': ['st_notify_closed_any', 'st_id_calls_total', 'st_recv_puback_v5_flow', 'st_send_publish_v311_never_dropped', 'st_recv_puback_v311_persistent',
           'st_send_publish_v5_limit', 'st_recv_connect_v5_server_tam'],
-    'XL': ['st_dispatch_client_v311', 'st_dispatch_server_v311', 'st_dispatch_client_v5', 'st_dispatch_server_v5', 'st_undetermined_first_packet', 'st_recv_publish_v5_alias',
+    'XL': ['st_send_publish_v5_flow', 'st_send_publish_v5_limit', 'st_erase_stored_publish_v5', 'st_send_stored_limit_v5', 'st_recv_pubcomp_flow', 'st_recv_pubrec_v5_flow', 'st_dispatch_client_v311', 'st_dispatch_server_v311', 'st_dispatch_client_v5', 'st_dispatch_server_v5', 'st_undetermined_first_packet', 'st_recv_publish_v5_alias',
            'st_recv_publish_v5_recv_max', 'st_send_connack_v5_resume_count', 'st_send_publish_v5_alias_resolve', 'st_send_publish_v5_manual_alias_bind'],
 }
 _known = set(x for v in _MEM.values() for x in v)
@@ -484,16 +487,16 @@ THOROUGH_EXTRA = {
     'C04': [h['name'] for h in HARNESSES if h['name'].startswith('c04_')] + ['st_recv_publish_q2_v311'],
     'C05': ['st_recv_publish_q2_v311', 'st_recv_connect_v5_server', 'c09_f3_overlong_rl_cut1', 'c09_f3_overlong_rl_cut3', 'c09_f3_overlong_rl_cut4', 'st_recv_connect_v5_server_tam', 'st_dispatch_client_v311', 'st_dispatch_server_v311',
             'st_recv_framing_error_v311', 'st_recv_puback_v311_persistent'],
-    'C06': ['st_send_pubrel_states_v311', 'st_send_publish_v311_never_dropped', 'st_recv_puback_v5_flow', 'st_recv_pubcomp_flow', 'st_notify_closed_any', 'st_recv_pubrec_v5_flow', 'st_recv_connack_v311_resume', 'st_erase_stored_publish_v5', 'st_send_stored_limit_v5'],
+    'C06': ['st_send_pubrel_states_v311', 'st_send_publish_v311_never_dropped', 'st_recv_puback_v5_flow', 'st_recv_pubcomp_flow', 'st_notify_closed_any', 'st_recv_pubrec_v5_flow', 'st_recv_connack_v311_resume', 'st_erase_stored_publish_v5'],
     'C07': ['st_recv_publish_q2_v311', 'st_reuse_client_v311_clean_connect', 'st_recv_pubrel_flow', 'st_notify_closed_any'],
     'C08': ['c20_step_u16_n3', 'st_recv_puback_v5_flow', 'st_recv_pubcomp_flow', 'st_send_publish_v311_never_dropped', 'st_recv_unsuback_v5', 'st_recv_suback_v311', 'st_recv_suback_v5',
-            'st_recv_unsuback_v311', 'st_send_publish_v5_flow', 'st_send_publish_v5_limit', 'st_recv_pubrec_v5_flow', 'st_erase_stored_publish_v5', 'st_send_stored_limit_v5', 'st_recv_connack_v311_resume'],
+            'st_recv_unsuback_v311', 'st_send_publish_v5_flow', 'st_send_publish_v5_limit', 'st_recv_pubrec_v5_flow', 'st_erase_stored_publish_v5', 'st_recv_connack_v311_resume'],
     'C09': ['c09_f2_s2_nonminimal', 'c09_f2_s5_partial_tail', 'c09_f2_s6_three_byte_len', 'st_recv_framing_error_v311', 'st_recv_framing_error_v5'],
     'C10': ['st_reuse_client_v311_clean_connect', 'st_recv_connect_v5_server'],
     'C11': ['c11_const_table'] + ['c11_cell_' + _c for _c in C11_DECIDED] + ['st_send_publish_v311_never_dropped', 'st_send_pubrel_states_v311'],
     'C12': ['st_recv_puback_v5_flow', 'st_recv_pubcomp_flow', 'st_recv_pubrec_v5_flow', 'st_send_publish_v5_flow', 'st_erase_stored_publish_v5'],
     'C13': ['st_recv_connect_v5_server_tam', 'st_send_publish_v5_manual_alias_rebind1'],
-    'C14': ['st_send_publish_v5_limit', 'st_send_stored_limit_v5'],
+    'C14': ['st_send_publish_v5_limit'],
     'C15': ['st_send_pubrel_states_v311', 'st_send_pingreq_v311_client', 'st_send_disconnect_v5_server', 'st_timer_fired_v311_client', 'st_timer_fired_v5_client_pingresp', 'st_recv_connect_v5_server'],
     'C16': ['st_recv_connack_v311_resume'],
     'C17': ['st_dispatch_client_v311', 'st_dispatch_server_v311', 'st_recv_connect_v311_server', 'st_recv_connect_v5_server', 'st_recv_connack_while_connected_v5'],
@@ -519,6 +522,7 @@ for _p, _names in THOROUGH_EXTRA.items():
 # Written and compiled on every run, but not decided within the memory / time limits of this sandbox (measured);
 # they are *outside the claim* (DESIGN 10.5) and can be run with `bin/check DEV --only <name>`.
 EXPERIMENTAL = {
+    'st_send_stored_limit_v5': 'time-out 50 min at 20 GB (class XL)', 'st_send_stored_limit_v5_pubrel': '> 12 GB after 18 min (one stored packet)', 'st_send_stored_limit_v5_publish': 'like the PUBREL form',
     'st_restore_pair_v311_q1': '> 28 GB', 'st_restore_pair_v311_q2': '> 28 GB', 'st_restore_pair_v5_q1': '> 28 GB', 'st_restore_pair_v5_q2': '> 28 GB (superseded by st_restore_one_*)',
     'st_restore_packets_v311': '> 8 GB (three packets; the two-packet forms exceed 28 GB)', 'st_restore_packets_v5': 'like v3.1.1', 'st_restore_packets_duplicate_id': '> 8 GB',
     'c11_cell_client_v5_connect': '> 12 GB after 30 min',
